@@ -527,10 +527,15 @@ func (t *transpiler) evaluateStringSubscript(subscript parser.StringSubscript, v
 	if err != nil {
 		return expressionResult{}, err
 	}
-	endIndexResult, err := t.evaluateIndex(subscript.EndIndex(), true)
+	endIndexResult := startIndexResult
 
-	if err != nil {
-		return expressionResult{}, err
+	// A single index (s[i]) must only be evaluated once.
+	if !subscript.SingleIndex() {
+		endIndexResult, err = t.evaluateIndex(subscript.EndIndex(), true)
+
+		if err != nil {
+			return expressionResult{}, err
+		}
 	}
 	value := subscript.Value()
 	str, err := t.evaluateExpression(value, true)
